@@ -175,11 +175,11 @@ class C19Check(Check):
         "indices. Distinct by (wrapped classifier, flags, op-kind multiset, probes)."
     )
     fault_kinds = ["repeated_indices", "label_override", "weight_override", "base_restart", "documented_refusal"]
-    probes_expected = ["partial_fit_from_base_after_divergence", "emulated_partial_fit", "native_partial_fit", "speedup_twin_compared", "prediction_compared", "refusal_predicted", "unique_replaced_sample"]
+    probes_expected = ["partial_fit_from_base_after_divergence", "emulated_partial_fit", "native_partial_fit", "speedup_twin_compared", "prediction_compared", "refusal_predicted", "unique_replaced_sample", "partial_precompute", "refused_missing_kernel_entries", "speed_up_with_prefitted_clf"]
     assumptions = [
         "probabilities are compared to 1e-9 relative (a pre-computed kernel block and a freshly computed one may differ in the last bits); hard predictions only where the top-two margin exceeds that tolerance",
         "exception types of refusals are not judged, only that the wrapper refuses exactly when the model does",
-        "with use_speed_up and a classifier fitted outside the wrapper, predict/predict_freq are not judged (documented degraded mode)",
+        "with use_speed_up, predictions that need kernel entries the caller never announced through precompute are refused by documentation (ValueError); they are judged whenever the announced entries suffice",
     ]
     tiers = {"quick": {"runs": 8000, "wall_cap": 600, "chunk": 30}, "thorough": {"runs": 160000, "wall_cap": 3300, "chunk": 50}}
 
@@ -204,6 +204,10 @@ class C19Check(Check):
         ops = []
         if g.chance(0.85):
             ops.append({"op": "precompute"})
+        elif g.chance(0.6):
+            # the caller announces only part of the kernel (possibly in several calls)
+            for _ in range(g.pick([1, 2, 3])):
+                ops.append({"op": "precompute", "fit_idx": sorted(g.sample(range(n), g.randint(1, n))), "pred_idx": sorted(g.sample(range(n), g.randint(1, n))), "fit_params": g.pick(["all", "all", "labeled", "unlabeled"]), "pred_params": g.pick(["all", "all", "labeled", "unlabeled"])})
         for _ in range(g.pick([3, 5, 8, 12, 18] + ([25, 25] if self.tier == "thorough" else []))):
             r = g.random()
             k = g.randint(1, max(1, n - 1))
@@ -260,7 +264,9 @@ class C19Check(Check):
         name = op["op"]
         n = len(wrp.X)
         if name == "precompute":
-            wrp.precompute(np.arange(n), np.arange(n))
+            fi = np.arange(n) if op.get("fit_idx") is None else np.array(op["fit_idx"], dtype=int)
+            pi = np.arange(n) if op.get("pred_idx") is None else np.array(op["pred_idx"], dtype=int)
+            wrp.precompute(fi, pi, fit_params=op.get("fit_params", "all"), pred_params=op.get("pred_params", "all"))
             return None
         idx = np.array(op["idx"], dtype=int)
         y = None if op.get("y") is None else np.array([np.nan if v is None else v for v in op["y"]], dtype=float)
@@ -300,12 +306,25 @@ class C19Check(Check):
             return obs
         is_pwc = sc["clf"].startswith("pwc")
         precomputed = False
+        n_pool = len(sc["X"])
+        covered = np.zeros((n_pool, n_pool), dtype=bool)
         moved_since_base = False
         for t, op in enumerate(sc["ops"]):
             name = op["op"]
             if name == "precompute":
                 self._apply(wrp, op)
                 precomputed = True
+                # which kernel entries the caller has announced (documented meaning of the four arguments)
+                y0 = np.array([np.nan if v is None else v for v in sc["y"]], dtype=float)
+                sel = {"all": np.ones(n_pool, dtype=bool), "labeled": ~np.isnan(y0), "unlabeled": np.isnan(y0)}
+                fi = np.arange(n_pool) if op.get("fit_idx") is None else np.array(op["fit_idx"], dtype=int)
+                pi = np.arange(n_pool) if op.get("pred_idx") is None else np.array(op["pred_idx"], dtype=int)
+                fi = fi[sel[op.get("fit_params", "all")][fi]]
+                pi = pi[sel[op.get("pred_params", "all")][pi]]
+                if len(fi) and len(pi):
+                    covered[np.ix_(fi, pi)] = True
+                if judge and not covered.all():
+                    ctx.probe("partial_precompute")
                 continue
             if name in ("fit", "partial_fit"):
                 m2 = copy.deepcopy(model)
@@ -368,9 +387,18 @@ class C19Check(Check):
                 continue  # missing kernel entries: documented refusal, not judged here
             if speed_up and is_pwc and model.cur[0][0] == "prefit":
                 ctx.probe("speed_up_with_prefitted_clf")
+            expect_refusal = False
+            if speed_up and is_pwc and model.cur[0][0] != "prefit":
+                train = sorted(set(i for _, tr in model.cur for i in tr["idx"]))
+                expect_refusal = not covered[np.ix_(train, sorted(set(op["idx"])))].all()
             try:
                 val = self._apply(wrp, op)
             except Exception as e:
+                if expect_refusal and isinstance(e, ValueError) and "pre-computed" in str(e):
+                    # kernel entries the caller never announced: the documented refusal
+                    if judge:
+                        ctx.probe("refused_missing_kernel_entries")
+                    continue
                 if judge:
                     ctx.violate("prediction-raises", subj, f"op {t} {name}({op['idx']}) raised {type(e).__name__}: {str(e)[:100]}", dict(cond, exc=type(e).__name__))
                 return obs
